@@ -2251,6 +2251,20 @@ theorem async_listen_fcnt (r : DevRun) (res : ListenResult) (r' : DevRun) (h : a
   | errMac => exact hother _ (fun n => by simp) (by simp) (by rw [hf.1])
   | listening => exact hother _ (fun n => by simp) (by simp) (by rw [hf.1])
 
+/-- **uplink counters never repeat in sessions with listen calls.**  A session of sends, joins, setters and
+`rxc_listen` calls (either class, any scripts) that returns is a run of the extended history
+`abstractCalls` of its calls, its outputs are the front-end's answers call by call (`SessObs`), and along
+that history every data frame handed to the radio carries a counter strictly above the previous one of
+the same session until `SessionExpired` is reported (`FcntStrict`, as `runC_fcnt_strict`): the Class C
+receptions of a listen call move `fcnt_up` forward only (`async_listen_fcnt`). -/
+theorem asyncCalls_fcnt_strict {σ} (g : Rng σ) (cfg : DevCfg) (d : DevRun) (rs : σ) (calls : List AsyncCall)
+    (obs : List CallObs) (d' : DevRun) (rs' : σ) (h : asyncCalls g cfg d rs calls = .ok (obs, d', rs')) :
+    ∃ ocs, runC g (d.m, rs) (abstractCalls g cfg (d.m, rs) calls) = .ok ((d'.m, rs'), ocs) ∧ SessObs calls obs ocs ∧
+      FcntStrict (some 0) (((abstractCalls g cfg (d.m, rs) calls).map projEv).zip (ocs.map (fun oc => oc.out))) := by
+  obtain ⟨ocs, hrun, hobs⟩ := asyncCalls_runC g cfg d rs calls obs d' rs' h
+  exact ⟨ocs, hrun, hobs,
+    runC_fcnt_strict g d.m rs _ (d'.m, rs') ocs (some 0) (fun _ e _ _ => by cases e; exact Nat.zero_le _) hrun⟩
+
 /-! non-vacuity: a device at `fcnt_up = 2^32 − 2` hears an authentic frame (counter moves to `2^32 − 1`),
 listens again and hears the next one: `SessionExpired`, the counter stays -/
 
@@ -2269,3 +2283,4 @@ example : ((asyncListen lateListen).toOption.bind (fun x => (asyncListen { x.2 w
 end C06
 
 #print axioms C06.async_listen_fcnt
+#print axioms C06.asyncCalls_fcnt_strict
